@@ -1175,7 +1175,8 @@ def check_wrapper(case, rec):
     """Run the drawn configuration with each processing mode and a rotating entry point."""
     kind = case["kind"]
     sill = case["var"] + case["nugget"]
-    for i, proc in enumerate(("off", "keep", "nokeep")):
+    # "off_nokeep": process=False with keep_mean=False - documented to be the same as process=False (keep_mean only matters when processing)
+    for i, proc in enumerate(("off", "keep", "nokeep", "off_nokeep")):
         sub = dict(case, proc=proc, entry=ENTRIES[(case["entry0"] + i) % 3])
         sub["mean"] = {"kind": "const", "c": case["mean_c"]}
         if proc == "nokeep" and case["mean_lin"] is not None:
@@ -1183,7 +1184,7 @@ def check_wrapper(case, rec):
         # without processing the documented precondition is a plain normal field
         # (no normalizer, no trend, constant mean) for everything that uses the mean;
         # binary/discrete need it for their defaults / "equal" only, kept plain as well
-        if proc == "off" and (kind in NEEDS_MEAN or kind in ("binary", "discrete")):
+        if proc.startswith("off") and (kind in NEEDS_MEAN or kind in ("binary", "discrete")):
             sub["normalizer"], sub["trend"] = "none", None
         mean_arg = 0.0 if proc == "nokeep" else case["mean_c"]
         sub["params"] = _resolve(kind, case["params"], mean_arg, sill)
@@ -1192,7 +1193,7 @@ def check_wrapper(case, rec):
 
 def _check_wrapper_one(case, rec):
     kind, proc = case["kind"], case["proc"]
-    process, keep_mean = proc != "off", proc != "nokeep"
+    process, keep_mean = not proc.startswith("off"), proc not in ("nokeep", "off_nokeep")
     tags = {"transform": kind, "proc": proc, "entry": case["entry"], "normalizer": case["normalizer"], "kind": "wrapper"}
     rec.label(f"wrap:{kind}", f"wrap:proc={proc}", f"wrap:entry={case['entry']}", f"wrap:norm={case['normalizer']}")
     rec.label(f"wrap:mean={case['mean']['kind']}", f"wrap:trend={'none' if case['trend'] is None else case['trend']['kind']}")
